@@ -108,7 +108,11 @@ Run(mode, st) ==
                   ELSE IF PlanDist(c) = "ok" THEN "dist" ELSE "local"
       local == IF LocalOutcome(c) = "ok" THEN [cls |-> "ok", dist |-> 0, reason |-> 1, frags |-> 0, exec |-> 1]
                ELSE [cls |-> LocalOutcome(c), dist |-> 0, reason |-> 0, frags |-> 0, exec |-> 1]
-      fan == IF DeadCounted # {} \/ c = "rterr"
+      \* as built, a plain (non-aggregate) select without rows fails in merge() when this node is the only
+      \* participant: its own shard contributes no batch and "no shard returned a schema" (remote shards
+      \* always ship a schema-only placeholder).  An error in force mode is within C35; reported to C09.
+      aloneEmpty == Counted = {} /\ c = "scatter" /\ st.n = 0
+      fan == IF DeadCounted # {} \/ c = "rterr" \/ aloneEmpty
              THEN [cls |-> "internal", dist |-> 0, reason |-> 0, frags |-> Reached, exec |-> 1]
              ELSE [cls |-> "ok", dist |-> 1, reason |-> 0, frags |-> Reached, exec |-> 1]
       refuse(k) == [cls |-> k, dist |-> 0, reason |-> 0, frags |-> 0, exec |-> 1]
@@ -199,32 +203,42 @@ Init == /\ load = "loading" /\ draining = FALSE /\ resolved = FALSE
         /\ view = [p \in Peers |-> "absent"] /\ alive = [p \in Peers |-> TRUE]
         /\ pending = None /\ resp = NoResp /\ hist = <<>>
 
-LoadDone == Env /\ load = "loading" /\ load' = "loaded" /\ Log([a |-> "LoadDone"])
-            /\ UNCHANGED <<draining, resolved, view, alive>>
-LoadFail == Env /\ load = "loading" /\ load' = "failed" /\ Log([a |-> "LoadFail"])
-            /\ UNCHANGED <<draining, resolved, view, alive>>
-Resolve(S) == Env /\ ~draining /\ resolved' = TRUE
-              /\ view' = [p \in Peers |-> IF p \in S THEN (IF view[p] = "absent" THEN "unknown" ELSE view[p]) ELSE "absent"]
-              /\ (resolved => view' # view)                 \* re-resolving the same set changes nothing (C15)
-              /\ Log([a |-> "Resolve", S |-> S])
-              /\ UNCHANGED <<load, draining, alive>>
-ProbeUp(p) == Env /\ ~draining /\ view[p] \notin {"absent", "up"} /\ alive[p]
-              /\ view' = [view EXCEPT ![p] = "up"] /\ Log([a |-> "ProbeUp", p |-> p])
-              /\ UNCHANGED <<load, draining, resolved, alive>>
-ProbeDown(p) == Env /\ ~draining /\ view[p] \notin {"absent", "down"}
-                /\ view' = [view EXCEPT ![p] = "down"] /\ Log([a |-> "ProbeDown", p |-> p])
-                /\ UNCHANGED <<load, draining, resolved, alive>>
-Tick(S) == Env /\ ~draining /\ resolved' = TRUE
-           /\ view' = [p \in Peers |-> IF p \in S THEN (IF alive[p] THEN "up" ELSE "down") ELSE "absent"]
-           /\ (resolved => view' # view)
-           /\ Log([a |-> "Tick", S |-> S])
-           /\ UNCHANGED <<load, draining, alive>>
-PeerDies(p) == /\ alive[p] /\ view[p] # "absent" /\ resp = NoResp
-               /\ alive' = [alive EXCEPT ![p] = FALSE] /\ Log([a |-> "PeerDies", p |-> p])
-               /\ resp' = NoResp
-               /\ UNCHANGED <<load, draining, resolved, view, pending>>
-Drain == Env /\ ~draining /\ draining' = TRUE /\ Log([a |-> "Drain"])
-         /\ UNCHANGED <<load, resolved, view, alive>>
+\* environment steps as a guard and an effect on the node state (FrontDoorTrace.tla compares the real node
+\* with exactly these): o = [a, S, p]
+NodeState == [load |-> load, draining |-> draining, resolved |-> resolved, view |-> view, alive |-> alive]
+ResolvedView(s, S) == [p \in Peers |-> IF p \in S THEN (IF s.view[p] = "absent" THEN "unknown" ELSE s.view[p]) ELSE "absent"]
+TickView(s, S) == [p \in Peers |-> IF p \in S THEN (IF s.alive[p] THEN "up" ELSE "down") ELSE "absent"]
+Guard(s, o) ==
+  CASE o.a \in {"LoadDone", "LoadFail"} -> s.load = "loading"
+    [] o.a = "Resolve" -> ~s.draining /\ (s.resolved => ResolvedView(s, o.S) # s.view)   \* re-resolving the same set changes nothing (C15)
+    [] o.a = "Tick" -> ~s.draining /\ (s.resolved => TickView(s, o.S) # s.view)
+    [] o.a = "ProbeUp" -> ~s.draining /\ s.view[o.p] \notin {"absent", "up"} /\ s.alive[o.p]
+    [] o.a = "ProbeDown" -> ~s.draining /\ s.view[o.p] \notin {"absent", "down"}
+    [] o.a = "PeerDies" -> s.alive[o.p] /\ s.view[o.p] # "absent"
+    [] o.a = "Drain" -> ~s.draining
+    [] OTHER -> FALSE
+Effect(s, o) ==
+  CASE o.a = "LoadDone" -> [s EXCEPT !.load = "loaded"]
+    [] o.a = "LoadFail" -> [s EXCEPT !.load = "failed"]
+    [] o.a = "Resolve" -> [s EXCEPT !.resolved = TRUE, !.view = ResolvedView(s, o.S)]
+    [] o.a = "Tick" -> [s EXCEPT !.resolved = TRUE, !.view = TickView(s, o.S)]
+    [] o.a = "ProbeUp" -> [s EXCEPT !.view[o.p] = "up"]
+    [] o.a = "ProbeDown" -> [s EXCEPT !.view[o.p] = "down"]
+    [] o.a = "PeerDies" -> [s EXCEPT !.alive[o.p] = FALSE]
+    [] o.a = "Drain" -> [s EXCEPT !.draining = TRUE]
+SetState(t) == /\ load' = t.load /\ draining' = t.draining /\ resolved' = t.resolved /\ view' = t.view /\ alive' = t.alive
+Op(a, S, p) == [a |-> a, S |-> S, p |-> p]
+EnvAct(o) == /\ resp = NoResp /\ (pending = None \/ o.a = "PeerDies")     \* a peer may die while a request is pending
+             /\ Guard(NodeState, o) /\ SetState(Effect(NodeState, o))
+             /\ resp' = NoResp /\ pending' = pending /\ Log(o)
+LoadDone == EnvAct(Op("LoadDone", {}, 0))
+LoadFail == EnvAct(Op("LoadFail", {}, 0))
+Drain == EnvAct(Op("Drain", {}, 0))
+Resolve(S) == EnvAct(Op("Resolve", S, 0))
+Tick(S) == EnvAct(Op("Tick", S, 0))
+ProbeUp(p) == EnvAct(Op("ProbeUp", {}, p))
+ProbeDown(p) == EnvAct(Op("ProbeDown", {}, p))
+PeerDies(p) == EnvAct(Op("PeerDies", {}, p))
 \* Flight stops with the shutdown signal; the HTTP listener keeps serving for the drain window
 Sendable(r) == r.ep \in {"flight", "both"} => ~draining
 Decide(r) == /\ Quiet /\ Sendable(r) /\ pending' = r /\ resp' = NoResp /\ Log([a |-> "Req", r |-> r])
@@ -242,40 +256,59 @@ EnvNext == \/ LoadDone \/ LoadFail \/ Drain
 Next == EnvNext \/ Execute \/ Ack \/ (Quiet /\ \E r \in Requests : Decide(r))
 
 \* ---- CONTRACT: what C35 / C34 pin, over (state at the response, request, response) ------------
+\* Every clause has a name; an operator ...V returns the names of the clauses a response violates.
 \* (FrontDoorTrace.tla evaluates the same operators on what the real node answered.)
+Violated(cl) == {k \in DOMAIN cl : ~cl[k]}
 Up(v) == {p \in Peers : v[p] = "up"}
-C35Sql(ld, v, al, r, h, counted) ==
+C35SqlV(ld, v, al, r, h, counted) ==
   LET ok == h.status = 200
       c == r.st.c
       wellformed == r.mode # "bad" /\ r.fmt # "bad"
       twoUp == Cardinality(Up(v)) + 1 >= 2
       deadUp == {p \in Up(v) : ~al[p]}
       aliveUp == {p \in Up(v) : al[p]}
-  IN /\ (ld # "loaded" => ~ok)                                                   \* only once its tables are loaded
-     /\ (ok => h.dist \in {0, 1})
-     /\ (ok /\ r.mode = "off" => h.dist = 0)
-     /\ (ok /\ r.mode = "auto" /\ h.dist = 1 => Scatterable(c) /\ twoUp)          \* distributes only ...
-     /\ (ok /\ r.mode = "auto" /\ h.dist = 0 => h.reason = 1)                      \* ... locally with a reason
-     /\ (ld = "loaded" /\ wellformed /\ r.mode = "auto" /\ LocalOutcome(c) = "ok" /\ ~(Scatterable(c) /\ twoUp)
-           => ok /\ h.dist = 0)                                                   \* ... otherwise answers locally
-     /\ (ok /\ r.mode = "force" => h.dist = 1)                                     \* force is never local
-     /\ (r.mode = "auto" /\ Scatterable(c) /\ twoUp /\ deadUp # {} => ~(ok /\ h.dist = 0))   \* no fallback after a failure
-     /\ (ok => h.rows = r.st.n)                                                    \* x-qe-rows = the engine's row count
-     /\ (ok /\ counted /\ h.dist = 0 => h.frags = 0)                               \* x-qe-distributed is truthful
-     /\ (ok /\ counted /\ h.dist = 1 /\ aliveUp # {} => h.frags >= 1)
-C35Fragment(ld, r, h) == /\ (ld # "loaded" => h.status # 200)
-                         /\ (h.status = 200 => h.rows = r.st.n)
-C35Readyz(ld, res, dr, h) == (h.status = 200) <=> (ld = "loaded" /\ res /\ ~dr)
+  IN Violated([
+     \* "answers /sql only once its tables are loaded"
+     answered_before_load |-> (ld # "loaded" => ~ok),
+     decision_reported |-> (ok => h.dist \in {0, 1}),
+     off_is_local |-> (ok /\ r.mode = "off" => h.dist = 0),
+     \* "in auto mode it distributes only exactly-mergeable shapes with at least two members up"
+     auto_distributed_unmergeable_or_alone |-> (ok /\ r.mode = "auto" /\ h.dist = 1 => Scatterable(c) /\ twoUp),
+     \* "and otherwise answers locally with a reason"
+     auto_local_without_reason |-> (ok /\ r.mode = "auto" /\ h.dist = 0 => h.reason = 1),
+     auto_otherwise_not_local |-> (ld = "loaded" /\ wellformed /\ r.mode = "auto" /\ LocalOutcome(c) = "ok" /\ ~(Scatterable(c) /\ twoUp)
+                                     => ok /\ h.dist = 0),
+     force_answered_locally |-> (ok /\ r.mode = "force" => h.dist = 1),
+     \* "it never falls back to a local answer after a distributed execution failure"
+     local_fallback_after_failure |-> (r.mode = "auto" /\ Scatterable(c) /\ twoUp /\ deadUp # {} => ~(ok /\ h.dist = 0)),
+     \* x-qe-rows = the engine's row count; x-qe-distributed says what happened
+     row_count_header |-> (ok => h.rows = r.st.n),
+     local_answer_used_peers |-> (ok /\ counted /\ h.dist = 0 => h.frags = 0),
+     distributed_answer_without_peers |-> (ok /\ counted /\ h.dist = 1 /\ aliveUp # {} => h.frags >= 1)])
+C35FragmentV(ld, r, h) ==
+  Violated([fragment_before_load |-> (ld # "loaded" => h.status # 200),
+            fragment_row_count |-> (h.status = 200 => h.rows = r.st.n)])
+C35ReadyzV(ld, res, dr, h) ==
+  Violated([readyz_iff_loaded_resolved_not_draining |-> ((h.status = 200) <=> (ld = "loaded" /\ res /\ ~dr))])
 
 FlightOk(f) == f.gfi \in {"ok", "skipped"} /\ f.dg = "ok"
-C34Flight(ld, r, f, counted) ==
-  /\ (ld # "loaded" => ~FlightOk(f))
-  /\ (r.tamper \in RefusedTampers => f.dg \notin {"ok", "skipped"} /\ (counted => f.dexec = 0 /\ f.frags = 0))   \* refused, never executed
-  /\ (FlightOk(f) => f.trailers = 1 /\ f.tlast = 1 /\ f.trows = f.rows /\ f.rows = r.st.n /\ f.dist \in {0, 1})
-  /\ (counted => f.gexec = 0)                                                      \* GetFlightInfo plans, DoGet runs
-C34Both(r, h, f) ==
-  /\ ((h.status = 200) <=> FlightOk(f))                                            \* same outcome
-  /\ (h.status = 200 /\ FlightOk(f) => h.dist = f.dist /\ h.rows = f.rows)         \* same decision, same rows
+C34FlightV(ld, r, f, counted) ==
+  Violated([
+     flight_answered_before_load |-> (ld # "loaded" => ~FlightOk(f)),
+     \* "malformed, oversized or unknown-version tickets are refused" (and never executed)
+     bad_ticket_accepted |-> (r.tamper \in RefusedTampers => f.dg \notin {"ok", "skipped"}),
+     bad_ticket_executed |-> (r.tamper \in RefusedTampers /\ counted => f.dexec = 0 /\ f.frags = 0),
+     \* "a metadata trailer matching the row count": exactly one, last, rows = what was streamed
+     one_trailer_and_last |-> (FlightOk(f) => f.trailers = 1 /\ f.tlast = 1),
+     trailer_row_count |-> (FlightOk(f) => f.trows = f.rows),
+     flight_row_count |-> (FlightOk(f) => f.rows = r.st.n),
+     flight_decision_reported |-> (FlightOk(f) => f.dist \in {0, 1}),
+     get_flight_info_executed |-> (counted => f.gexec = 0)])
+C34BothV(r, h, f) ==
+  Violated([
+     doors_disagree_on_outcome |-> ((h.status = 200) <=> FlightOk(f)),
+     doors_disagree_on_decision |-> (h.status = 200 /\ FlightOk(f) => h.dist = f.dist),
+     doors_disagree_on_row_count |-> (h.status = 200 /\ FlightOk(f) => h.rows = f.rows)])
 \* finer (fidelity): both doors name the same class, as far as HTTP's status vocabulary can tell
 SameClass(h, f) ==
   LET g == IF f.gfi \notin {"ok", "skipped"} THEN f.gfi ELSE f.dg
@@ -284,14 +317,15 @@ SameClass(h, f) ==
        [] h.status = 501 -> g = "Unimplemented"
        [] OTHER -> g \in {"InvalidArgument", "NotFound", "Internal"}
 
-Contract ==
-  resp.req # None =>
-    LET r == resp.req IN
-    /\ (r.ep \in {"sql", "both"} => C35Sql(load, view, alive, r, resp.http, TRUE))
-    /\ (r.ep = "fragment" => C35Fragment(load, r, resp.http))
-    /\ (r.ep = "readyz" => C35Readyz(load, resolved, draining, resp.http))
-    /\ (r.ep \in {"flight", "both"} => C34Flight(load, r, resp.flight, TRUE))
-    /\ (r.ep = "both" => C34Both(r, resp.http, resp.flight))
+ViolatedNow ==
+  IF resp.req = None THEN {}
+  ELSE LET r == resp.req IN
+       (IF r.ep \in {"sql", "both"} THEN C35SqlV(load, view, alive, r, resp.http, TRUE) ELSE {})
+       \cup (IF r.ep = "fragment" THEN C35FragmentV(load, r, resp.http) ELSE {})
+       \cup (IF r.ep = "readyz" THEN C35ReadyzV(load, resolved, draining, resp.http) ELSE {})
+       \cup (IF r.ep \in {"flight", "both"} THEN C34FlightV(load, r, resp.flight, TRUE) ELSE {})
+       \cup (IF r.ep = "both" THEN C34BothV(r, resp.http, resp.flight) ELSE {})
+Contract == LET V == ViolatedNow IN V = {} \/ (EmitTag("VIOLATED", [clauses |-> V, req |-> resp.req]) /\ FALSE)
 \* the doors agree class by class except on an empty statement sent to a node that is not ready
 \* (HTTP checks readiness before it reads the body, Flight parses the command first): not pinned
 DoorsSameClass ==
@@ -306,26 +340,28 @@ TypeOK == /\ load \in {"loading", "loaded", "failed"} /\ draining \in BOOLEAN /\
           /\ (~resolved => \A p \in Peers : view[p] = "absent")
 
 \* ---- emission ----------------------------------------------------------------------------------
-NodeState == [load |-> load, draining |-> draining, resolved |-> resolved, view |-> view, alive |-> alive]
 SView == <<load, draining, resolved, view, alive>>
 \* (a) one environment history per reachable node state (Next = EnvNext, VIEW SView)
 EmitStates == Emit = "states" => EmitCase([h |-> hist, s |-> NodeState])
 \* (b) random walks: weighted single-successor steps
-Enabled2(S) == LET v2 == [p \in Peers |-> IF p \in S THEN (IF view[p] = "absent" THEN "unknown" ELSE view[p]) ELSE "absent"] IN ~resolved \/ v2 # view
 RandomStep ==
-  LET k == RandomElement(1..20)
+  LET k == RandomElement(1..24)
       p == RandomElement(Peers)
       S == RandomElement(SUBSET Peers)
+      try(o) == IF Guard(NodeState, o) THEN EnvAct(o)
+                ELSE LET r == RandomElement(Requests)
+                     IN IF Sendable(r) THEN Decide(r) ELSE Decide(Req("readyz", "off", "arrow", Small, "none"))
   IN IF resp # NoResp THEN Ack
-     ELSE IF pending # None THEN (IF k <= 5 /\ alive[p] /\ view[p] # "absent" THEN PeerDies(p) ELSE Execute)
-     ELSE IF k <= 2 /\ load = "loading" THEN (IF k = 1 \/ RandomElement(1..3) <= 2 THEN LoadDone ELSE LoadFail)
-     ELSE IF k = 3 /\ ~draining /\ Enabled2(S) THEN Resolve(S)
-     ELSE IF k = 4 /\ ~draining /\ (~resolved \/ [q \in Peers |-> IF q \in S THEN (IF alive[q] THEN "up" ELSE "down") ELSE "absent"] # view) THEN Tick(S)
-     ELSE IF k = 5 /\ ~draining /\ view[p] \notin {"absent", "up"} /\ alive[p] THEN ProbeUp(p)
-     ELSE IF k = 6 /\ ~draining /\ view[p] \notin {"absent", "down"} THEN ProbeDown(p)
-     ELSE IF k = 7 /\ alive[p] /\ view[p] # "absent" /\ RandomElement(1..2) = 1 THEN PeerDies(p)
-     ELSE IF k = 8 /\ ~draining /\ RandomElement(1..3) = 1 THEN Drain
-     ELSE LET r == RandomElement(Requests) IN IF Sendable(r) THEN Decide(r) ELSE Decide(RandomElement({q \in Requests : q.ep \notin {"flight", "both"}} \cup {Req("readyz", "off", "arrow", Small, "none")}))
+     ELSE IF pending # None THEN (IF k <= 6 /\ Guard(NodeState, Op("PeerDies", {}, p)) THEN PeerDies(p) ELSE Execute)
+     ELSE IF k <= 3 THEN try(Op("LoadDone", {}, 0))
+     ELSE IF k = 4 THEN try(Op("LoadFail", {}, 0))
+     ELSE IF k \in 5..6 THEN try(Op("Resolve", S, 0))
+     ELSE IF k \in 7..8 THEN try(Op("Tick", S, 0))
+     ELSE IF k \in 9..10 THEN try(Op("ProbeUp", {}, p))
+     ELSE IF k = 11 THEN try(Op("ProbeDown", {}, p))
+     ELSE IF k = 12 THEN try(Op("PeerDies", {}, p))
+     ELSE IF k = 13 /\ RandomElement(1..3) = 1 THEN try(Op("Drain", {}, 0))
+     ELSE try(Op("none", {}, 0))
 NextWalk == RandomStep
 EmitWalks == Emit = "walks" /\ Len(hist) >= MaxDepth /\ pending = None => EmitCase([h |-> hist])
 WalkBound == Len(hist) < MaxDepth \/ pending # None
